@@ -147,6 +147,19 @@ The output format is the same than input format.
 
 func mask(al align.Alignment, start, length int, refseq bool, maskrefseq, maskreplace string, masknogap, masknoref bool) (err error) {
 	if refseq {
+		// A window that extends past the end of the reference sequence is
+		// truncated, as a window past the end of the alignment is without reference
+		if seq, ok := al.GetSequenceChar(maskrefseq); ok {
+			reflen := 0
+			for _, c := range seq {
+				if c != align.GAP {
+					reflen++
+				}
+			}
+			if start >= 0 && start < reflen && start+length > reflen {
+				length = reflen - start
+			}
+		}
 		if start, length, err = al.RefCoordinates(maskrefseq, start, length); err != nil {
 			io.LogError(err)
 			return
